@@ -123,6 +123,16 @@ Proof.
   destruct (tree_mirror_converse_lemma uni_esc compile fuel _ _ _ _ _ _ _ H (p, c) I) as [[]|O]. exact O.
 Qed.
 
+(* ... and nothing else is declared: the module text a directory contributes (to templates.rs for
+   the root, to its own mod.rs below, whichever walker `rec` handles the sub-directories) is, in
+   entry order, one declaration block per file whose UTF-8 name ends in a template suffix and whose
+   content parses, and one `pub mod` line per UTF-8 named sub-directory.  A template that fails, a
+   file with another name, a directory with a non-UTF-8 name contribute no declaration *)
+Theorem nothing_else_declared : forall (uni_esc : N -> bool) (compile : bytes -> bytes -> coutcome) rec es w f indir outdir w' f',
+  entries_loop uni_esc compile rec w f indir outdir es = BOk _ (w', f') ->
+  exists items, f' = f ++ flat_map render_item items /\ Forall (item_justified compile es) items.
+Proof. exact module_text_lemma. Qed.
+
 (* the same stem under different suffixes gives different functions; a whole tree *)
 Example same_stem_different_suffix :
   let tree := [(b "a.rs.html", File (b "H")); (b "a.rs.svg", File (b "S")); (b "notes.txt", File (b "x"));
@@ -147,3 +157,4 @@ Redirect "assumptions/C10.directory_is_sum_of_entries" Print Assumptions directo
 Redirect "assumptions/C10.handle_entries_is_framed" Print Assumptions handle_entries_is_framed.
 Redirect "assumptions/C10.tree_mirror" Print Assumptions tree_mirror.
 Redirect "assumptions/C10.nothing_else_generated" Print Assumptions nothing_else_generated.
+Redirect "assumptions/C10.nothing_else_declared" Print Assumptions nothing_else_declared.
